@@ -83,6 +83,8 @@ func genC14(t *rapid.T) c14Case {
 				op.ChalOf = rapid.IntRange(0, 3).Draw(t, "otherSession")
 			case 1:
 				op.ChalOf = -2
+			case 2:
+				op.ChalOf = -3 // proof computed over an empty (zero-length) server challenge
 			}
 			op.ClientCh = rapid.Uint64().Draw(t, "clientChallenge")
 			// follow-up of the previous attempt in the same session: same session and domain, another named user,
@@ -177,6 +179,9 @@ func runC14(c c14Case) *Violation {
 					src = get(op.ChalOf).chal
 				case op.ChalOf == -2 && len(s.earlier) > 0:
 					src = s.earlier[len(s.earlier)-1]
+				}
+				if op.ChalOf == -3 {
+					src = &ntlmx.Challenge{ServerChallenge: []byte{}, TargetInfo: []byte{0, 0, 0, 0}}
 				}
 				if src == nil {
 					src = &ntlmx.Challenge{ServerChallenge: []byte{1, 2, 3, 4, 5, 6, 7, 8}, TargetInfo: []byte{0, 0, 0, 0}}
